@@ -13,6 +13,7 @@ import (
 	"unicode/utf8"
 
 	"github.com/ozanh/ugo"
+	"github.com/ozanh/ugo/internal"
 	"github.com/ozanh/ugo/stdlib"
 )
 
@@ -568,6 +569,11 @@ func pad(c ugo.Call, left bool) (ugo.Object, error) {
 	if !ok {
 		return ugo.Undefined,
 			ugo.NewArgumentTypeError("2nd", "int", c.Get(1).TypeName())
+	}
+	if padLen > internal.MaxInt32 {
+		// (also keeps padLen - len(s) below from overflowing)
+		return ugo.Undefined,
+			ugo.NewArgumentTypeError("2nd", "smaller pad length", "pad length too large")
 	}
 	diff := padLen - len(s)
 	if diff <= 0 {
